@@ -140,6 +140,8 @@ CHECKS["C15"] = {
         {"engine": "E", "proxy": ["plain"], "tests": [
             {"run": "TestVfC15Listeners", "quick": 96, "thorough": 12860, "shards_quick": 8, "shards_thorough": 16, "timeout_thorough": 3400},
             {"run": "TestVfC15SlowStore", "quick": 4, "thorough": 160, "shards_quick": 4, "shards_thorough": 8, "timeout_thorough": 3400, "shrinktime": "40s"},
+            # a refused UDP query "is answered REFUSED": on a wildcard listener that answer has to leave from the address that was asked
+            {"run": "TestVfC03WildcardUDP", "quick": 120, "thorough": 6000, "shards_quick": 8, "shards_thorough": 16, "timeout_thorough": 3000},
         ]},
     ],
     "assumptions": [
